@@ -24,12 +24,13 @@ def pubOf (d : Nat) : Except Err Bytes :=
     | _ => .error .malformedPoint
   | none => .error .valueError
 
-/-- `VerifyingKey.from_der(header ++ raw)`: on curve and in range, else `MalformedPointError` -/
+/-- `create_public_ecc_key_from_raw_fmt(raw)` = plug-in `create_from_der_fmt(header ++ raw)`: on curve and in
+range, else python-ecdsa's `MalformedPointError`/`UnexpectedDER`, which the plug-in converts to `ValueError` -/
 def loadRaw (raw : Bytes) : Except Err Bytes :=
-  if raw.length != 64 then .error .malformedPoint else
+  if raw.length != 64 then .error .valueError else
   let x : Int := fromBE (raw.take 32)
   let y : Int := fromBE (raw.drop 32)
-  if x < curve.p && y < curve.p && containsPoint curve x y then .ok raw else .error .malformedPoint
+  if x < curve.p && y < curve.p && containsPoint curve x y then .ok raw else .error .valueError
 
 /-- `ECDH(...).generate_sharedsecret_bytes()` -/
 def dh (d : Nat) (pub : Bytes) : Except Err Bytes := do
